@@ -193,7 +193,8 @@ def eval_cases(module, cases, nparts=12, env=None, timeout=900, cfg=None, keep_o
     os.makedirs(WORK, exist_ok=True)
     nparts = max(1, min(nparts, len(cases)))
     files = []
-    tag = f'{os.getpid()}_{int(time.time()*1000) % 100000000}'
+    import uuid
+    tag = f'{os.getpid()}_{uuid.uuid4().hex[:12]}'
     for p in range(nparts):
         fn = os.path.join(WORK, f'cases_{tag}_{p}.json')
         with open(fn, 'w') as f:
